@@ -298,4 +298,249 @@ theorem ok_step_early {s : St} (hi : Inv s) (h : EarlyOK s) (e : Ev) (he : e ≠
   | release => exact h.of_same (frames_release s).samek
   | take => exact h.of_same (frames_take s).samek
 
+
+/-! ### `shutdown()` resumes after `Queues.join` -/
+
+/-- close() waits in `wait_closed()` of the transport: everything is halted, no consumer holds a frame -/
+structure WaitOK (s : St) : Prop where
+  k : cls s.closing = 2
+  halted : Halted s
+  hand : s.hand = []
+
+/-- the invariant: one of the three, according to where close() is -/
+def ZInv (s : St) : Prop := EarlyOK s ∨ WaitOK s ∨ DoneOK s
+
+theorem doneok_of_finishClose {x : St} (t0 : Nat) (hp : x.producers = 0) (hk : x.consumers = 0) (hl : x.lostPending = false)
+    (hm : x.lostMid = false) (hr : (cancelConn x).recon = .idle) (hs : ∀ d ∈ x.devices, d.setup = .done)
+    (hw : x.wopen = false) (hwr : x.writer = none) (hc : x.connected = false) : DoneOK (finishClose x t0).1 := by
+  have hdt := deviceTasks_after_shutdown x t0 hs
+  rw [finishClose_fst] at hdt ⊢
+  refine ⟨rfl, ⟨hp, hk, hl, hm, hr, hc, hw, ?_⟩, hwr, tasks_zero_of hp hk hl hm hr hdt⟩
+  intro d hd
+  simp only [List.mem_map] at hd
+  obtain ⟨d', hd', rfl⟩ := hd
+  exact hs d' hd'
+
+theorem cancelConn_recon (x : St) :
+    (cancelConn x).recon = if reconOwner x.recon = some .conn then .idle else x.recon := by
+  unfold cancelConn; split <;> rename_i h <;> simp [h]
+
+/-- the protocol's `cancel_tasks()` followed by the connection's: no reconnect routine is left (the user's is excluded) -/
+theorem recon_after_cancels (r : Recon) (hu : reconOwner r ≠ some .user) :
+    (if reconOwner (if reconOwner r = some .proto then Recon.idle else r) = some .conn then Recon.idle
+     else (if reconOwner r = some .proto then Recon.idle else r)) = .idle := by
+  cases r with
+  | idle => simp [reconOwner]
+  | wclosing d => simp [reconOwner]
+  | attempting d o => cases o <;> simp_all [reconOwner]
+  | backoff d o => cases o <;> simp_all [reconOwner]
+
+theorem zinv_shutdownRun {s : St} (hi : Inv s) (h : EarlyOK s) : ZInv (shutdownRun s).1 := by
+  unfold shutdownRun
+  split
+  · rename_i t0 hj
+    split
+    · -- join() has returned: cancel the protocol's tasks, close the transport, shut the devices, cancel the connection's tasks
+      have hu : reconOwner s.recon ≠ some .user := h.u (by rw [hj]; simp [cls])
+      rw [shutdownTail_fst]
+      split
+      · rename_i hh
+        have hws : s.writer ≠ none := by
+          intro hn
+          have : (cancelProto s).writer = none := hn
+          simp [closeHangs, this] at hh
+        have hrc : (cancelProto s).recon = .idle := by
+          simp only [cancelProto]
+          split
+          · rfl
+          · rename_i hnp
+            cases hrr : s.recon with
+            | idle => rfl
+            | wclosing d => rw [hrr] at hnp; simp [reconOwner] at hnp
+            | attempting d o =>
+              have hd := down_of_recon hi (by rw [hrr]; simp)
+              exact absurd (h.j hd.1 hd.2 (by intro d'; rw [hrr]; simp)) hws
+            | backoff d o =>
+              have hd := down_of_recon hi (by rw [hrr]; simp)
+              exact absurd (h.j hd.1 hd.2 (by intro d'; rw [hrr]; simp)) hws
+        refine Or.inr (Or.inl ⟨rfl, ?_, rfl⟩)
+        exact cancelProto_halted_after s hrc _ ⟨rfl, rfl, rfl, rfl, rfl, rfl, rfl, rfl⟩
+      · refine Or.inr (Or.inr ?_)
+        apply doneok_of_finishClose (x := { cancelProto s with connected := false, wopen := false, writer := none }) t0 rfl rfl rfl rfl
+        · rw [cancelConn_recon]
+          exact recon_after_cancels s.recon hu
+        · exact cancelProto_setups s
+        · rfl
+        · rfl
+        · rfl
+    · exact Or.inl h
+  · exact Or.inl h
+
+/-! ### close() inside `wait_closed()` of the transport: nothing can start -/
+
+theorem park_setups {s : St} (hs : ∀ d ∈ s.devices, d.setup = .done) (t : Target) : ∀ d ∈ (park s t).devices, d.setup = .done := by
+  intro d hd
+  cases t <;>
+  · simp only [park, updDev, List.mem_map] at hd
+    obtain ⟨d', hd', rfl⟩ := hd
+    have := hs d' hd'
+    split <;> (try split) <;> exact this
+
+theorem no_armed {s : St} (hs : ∀ d ∈ s.devices, d.setup = .done) : s.devices.any (fun d => d.setup == .armed) = false := by
+  rw [List.any_eq_false]
+  intro d hd
+  rw [hs d hd]; decide
+
+theorem wait_step {s : St} (h : WaitOK s) (e : Ev) : WaitOK (step s e).1 ∨ DoneOK (step s e).1 := by
+  obtain ⟨hk, hh, hhand⟩ := h
+  obtain ⟨t0, dl, hc⟩ : ∃ t0 dl, s.closing = .wclosing t0 dl := by
+    cases hcc : s.closing <;> simp_all [cls]
+  have hnd : isDone s.closing = false := by rw [hc]; rfl
+  have keep : WaitOK s := ⟨hk, hh, hhand⟩
+  have hnst : NoSetupTimers s := by
+    intro d hd; simp [setupDeadline, hh.setups d hd]
+  unfold step
+  simp only [hnd, Bool.false_eq_true, ↓reduceIte]
+  unfold stepLive
+  cases e with
+  | reopen => exact Or.inl keep
+  | connect => left; simp [hc]; exact keep
+  | feed f => left; simp [feed, hh.prod]; exact keep
+  | readFault => left; simp [hh.prod]; exact keep
+  | setDrain m => left; simp only []; split <;> exact ⟨hk, ⟨hh.prod, hh.cons, hh.lp, hh.lm, hh.recon, hh.conn, hh.wopen, hh.setups⟩, hhand⟩
+  | setClose m => left; simp only []; split <;> exact ⟨hk, ⟨hh.prod, hh.cons, hh.lp, hh.lm, hh.recon, hh.conn, hh.wopen, hh.setups⟩, hhand⟩
+  | enq n => left; exact ⟨hk, ⟨hh.prod, hh.cons, hh.lp, hh.lm, hh.recon, hh.conn, hh.wopen, hh.setups⟩, hhand⟩
+  | park t =>
+    left
+    have c := same_park s t
+    have w := samew_park s t
+    have p := samep_park s t
+    refine ⟨by simp only []; rw [p.closing]; exact hk, ⟨?_, ?_, ?_, ?_, ?_, ?_, ?_, park_setups hh.setups t⟩, ?_⟩
+    · simp only []; rw [c.producers]; exact hh.prod
+    · have := c.consumers; have := hh.cons; simp only []; omega
+    · simp only []; rw [c.lostPending]; exact hh.lp
+    · simp only []; rw [c.lostMid]; exact hh.lm
+    · simp only []; rw [c.recon]; exact hh.recon
+    · simp only []; rw [c.connected]; exact hh.conn
+    · simp only []; rw [w.wopen]; exact hh.wopen
+    · cases t <;> exact hhand
+  | close => left; simp [closeEv, hc]; exact keep
+  | advance dt => left; simp only []; split <;> exact ⟨hk, ⟨hh.prod, hh.cons, hh.lp, hh.lm, hh.recon, hh.conn, hh.wopen, hh.setups⟩, hhand⟩
+  | tick k =>
+    simp only []
+    unfold fire
+    split
+    · exact Or.inl keep
+    · rename_i dl' hdl
+      split
+      · exact Or.inl keep
+      · cases k with
+        | readTO => simp [deadline?, hh.prod] at hdl
+        | writeTO => simp [deadline?, hh.prod] at hdl
+        | wcloseTO => simp [deadline?, hh.recon] at hdl
+        | openTO => simp [deadline?, hh.recon] at hdl
+        | backoffEnd => simp [deadline?, hh.recon] at hdl
+        | setup a => rw [setup_timer_none hnst a] at hdl; simp at hdl
+        | cwcloseTO =>
+          right
+          simp only []
+          split
+          · apply doneok_of_finishClose
+            · exact hh.prod
+            · exact hh.cons
+            · exact hh.lp
+            · exact hh.lm
+            · unfold cancelConn; split <;> first | rfl | exact hh.recon
+            · exact hh.setups
+            · exact hh.wopen
+            · rfl
+            · exact hh.conn
+          · rename_i hne
+            exact absurd hc (hne _ _)
+  | prodStart => left; simp [hh.prod]; exact keep
+  | lostRun => left; simp [lostRun, hh.lp]; exact keep
+  | lostRun2 => left; simp [lostRun2, hh.lm]; exact keep
+  | shutdownRun => left; simp [shutdownRun, hc]; exact keep
+  | setupGo => left; simp [setupGo, no_armed hh.setups]; exact keep
+  | versionsGo =>
+    left
+    simp only [versionsGo]
+    split
+    · refine ⟨hk, ⟨hh.prod, hh.cons, hh.lp, hh.lm, hh.recon, hh.conn, hh.wopen, ?_⟩, hhand⟩
+      intro d hd
+      simp only [List.mem_map] at hd
+      obtain ⟨d', hd', rfl⟩ := hd
+      exact hh.setups d' hd'
+    · exact keep
+  | gate a =>
+    left
+    simp only [gateEv]
+    split
+    · exact keep
+    · exact ⟨hk, ⟨hh.prod, hh.cons, hh.lp, hh.lm, hh.recon, hh.conn, hh.wopen, hh.setups⟩, hhand⟩
+  | release =>
+    left
+    simp only [release, hhand, finishAll]
+    exact ⟨hk, ⟨hh.prod, hh.cons, hh.lp, hh.lm, hh.recon, hh.conn, hh.wopen, hh.setups⟩, rfl⟩
+  | take =>
+    left
+    simp only [take]
+    split
+    · exact keep
+    · simp [idle, hh.cons]; exact keep
+
+/-! ### close() has returned -/
+
+theorem done_step {s : St} (h : DoneOK s) (e : Ev) : DoneOK (step s e).1 ∨ EarlyOK (step s e).1 := by
+  have hd : isDone s.closing = true := by
+    have := h.k
+    cases hc : s.closing <;> simp_all [cls, isDone]
+  unfold step
+  simp only [hd, ↓reduceIte]
+  unfold stepDone
+  split
+  · exact Or.inl ⟨h.k, ⟨h.halted.prod, h.halted.cons, h.halted.lp, h.halted.lm, h.halted.recon, h.halted.conn, h.halted.wopen,
+      h.halted.setups⟩, h.writer, h.tasks⟩
+  · unfold reopenEv
+    split
+    · exact Or.inl h
+    · right
+      exact ⟨by simp [cls], fun _ _ _ => h.writer, fun h0 => by simp [cls] at h0⟩
+  · exact Or.inl h
+
+theorem zinv_step {s : St} (hi : Inv s) (h : ZInv s) (e : Ev) : ZInv (step s e).1 := by
+  rcases h with h | h | h
+  · by_cases he : e = .shutdownRun
+    · subst he
+      have hnd : isDone s.closing = false := by
+        have := h.k
+        cases hc : s.closing <;> simp_all [cls, isDone]
+      have : step s .shutdownRun = shutdownRun s := by simp [step, stepLive, hnd]
+      rw [this]; exact zinv_shutdownRun hi h
+    · exact Or.inl (ok_step_early hi h e he)
+  · rcases wait_step h e with h' | h'
+    · exact Or.inr (Or.inl h')
+    · exact Or.inr (Or.inr h')
+  · rcases done_step h e with h' | h'
+    · exact Or.inr (Or.inr h')
+    · exact Or.inl h'
+
+theorem zinv_init (cfg : Nat) (rc : Bool) (sc : List OpenRes) : ZInv (init cfg rc sc) :=
+  Or.inl ⟨by simp [init, cls], fun _ _ _ => rfl, fun h0 => by simp [init, cls] at h0⟩
+
+theorem zinv_run {s : St} (hi : Inv s) (h : ZInv s) (es : List Ev) : ZInv (run s es).1 := by
+  induction es generalizing s with
+  | nil => exact h
+  | cons e es ih => exact ih (inv_step hi e) (zinv_step hi h e)
+
+theorem Reachable.zinv {s : St} (h : Reachable s) : ZInv s := by
+  obtain ⟨cfg, rc, sc, es, rfl⟩ := h
+  exact zinv_run (inv_init cfg rc sc) (zinv_init cfg rc sc) es
+
+theorem Reachable.doneok {s : St} (h : Reachable s) (hd : isDone s.closing = true) : DoneOK s := by
+  rcases h.zinv with h' | h' | h'
+  · have := h'.k; cases hc : s.closing <;> simp_all [cls, isDone]
+  · have := h'.k; cases hc : s.closing <;> simp_all [cls, isDone]
+  · exact h'
+
 end PlumVerif.Conn
